@@ -17,6 +17,7 @@ import (
 	"strings"
 
 	"github.com/sirupsen/logrus"
+	"golang.org/x/time/rate"
 
 	"verifharness/hlib"
 	"verifharness/lexgen"
@@ -29,10 +30,16 @@ type input struct {
 	Data  payload `json:"data"` // the line, the datagram(s), or the request body
 
 	// dgram
-	LogBad     bool  `json:"logbad,omitempty"` // bad-line logging enabled (rate limit off)
-	Cuts       []int `json:"cuts,omitempty"`   // data is cut at these offsets into successive datagrams
-	Batch      bool  `json:"batch,omitempty"`  // all datagrams in one batch (otherwise one batch each)
-	IgnoreHost bool  `json:"ignorehost,omitempty"`
+	LogBad bool    `json:"logbad,omitempty"` // (older inputs) same as badlpm = 1e9
+	BadLPM float64 `json:"badlpm,omitempty"` // bad-lines-per-minute: 0 (default), 1, 600, 1e9
+	LogRaw bool    `json:"lograw,omitempty"` // log-raw-metric
+	// burst: overlapping requests; body of template i = data[i], its header and endpoint = reqs[i mod len]
+	Reqs       []reqMeta `json:"reqs,omitempty"`
+	Gor        int       `json:"gor,omitempty"`    // goroutines (connections)
+	Rounds     int       `json:"rounds,omitempty"` // requests per goroutine
+	Cuts       []int     `json:"cuts,omitempty"`   // data is cut at these offsets into successive datagrams
+	Batch      bool      `json:"batch,omitempty"`  // all datagrams in one batch (otherwise one batch each)
+	IgnoreHost bool      `json:"ignorehost,omitempty"`
 	// recv: the socket-facing path (DatagramReceiver -> DatagramParser)
 	Sock          string `json:"sock,omitempty"`    // udp | unixgram | script (scripted PacketConn)
 	Readers       int    `json:"readers,omitempty"` // max-readers
@@ -112,6 +119,16 @@ func (p payload) datagrams() []string {
 	return out
 }
 
+// badLineLimit is what cmd/gostatsd passes to statsd.Server / NewDatagramParser:
+// rate.Limit(bad-lines-per-minute / 60).
+func (in input) badLineLimit() rate.Limit {
+	lpm := in.BadLPM
+	if in.LogBad && lpm == 0 {
+		lpm = 1e9
+	}
+	return rate.Limit(lpm / 60.0)
+}
+
 // fatalMark in a case's monitors: the implementation is wedged, stop the run after this case.
 const fatalMark = "\x00fatal"
 
@@ -165,7 +182,7 @@ func main() {
 			emit(lexr.run(in))
 		case "dgram":
 			emit(runDgram(in))
-		case "recv":
+		case "recv", "burst":
 			emit(recvr.run(in))
 		case "http":
 			if httpr == nil {
